@@ -14,8 +14,11 @@ import time
 ROOT = os.path.dirname(os.path.dirname(os.path.abspath(__file__)))
 SPEC = os.path.join(ROOT, "spec")
 HARNESS = os.path.join(ROOT, "harness")
-EVID = os.path.join(ROOT, "evidence")
-REPLAYS = os.path.join(ROOT, "replays")
+# VERIF_REPO / VERIF_EVIDENCE_DIR are for the maintainer's own mutant sweeps (tools/sweep_seeds.py): a scratch worktree of
+# /repo with a seeded change is checked without touching /repo or the committed evidence. Registered commands never set them.
+REPO = os.environ.get("VERIF_REPO") or "/repo"
+EVID = os.environ.get("VERIF_EVIDENCE_DIR") or os.path.join(ROOT, "evidence")
+REPLAYS = os.environ.get("VERIF_REPLAY_DIR") or os.path.join(ROOT, "replays")
 NCPU = os.cpu_count() or 4
 
 GOENV = dict(GOFLAGS="-mod=mod", GOPROXY="off", GOSUMDB="off", GOTOOLCHAIN="local")
@@ -308,22 +311,34 @@ def go_env(extra=None):
 
 
 def prepare_harness():
-    """go.sum comes from /repo (the harness only adds cached modules)."""
-    src = "/repo/go.sum"
-    dst = os.path.join(HARNESS, "go.sum")
+    """go.sum comes from /repo (the harness only adds cached modules). Returns extra `go` arguments
+    (a -modfile pointing at an alternate repository when VERIF_REPO is set)."""
+    src = os.path.join(REPO, "go.sum")
     extra = os.path.join(HARNESS, "go.sum.extra")
     data = open(src).read()
     if os.path.exists(extra):
         data += open(extra).read()
+    if REPO != "/repo":
+        d = os.path.join(REPO, ".verif-mod")
+        os.makedirs(d, exist_ok=True)
+        mod = open(os.path.join(HARNESS, "go.mod")).read().replace("=> /repo", "=> " + REPO)
+        for name, content in (("go.mod", mod), ("go.sum", data)):
+            pth = os.path.join(d, name)
+            if not os.path.exists(pth) or open(pth).read() != content:
+                with open(pth, "w") as f:
+                    f.write(content)
+        return ["-modfile=" + os.path.join(d, "go.mod")]
+    dst = os.path.join(HARNESS, "go.sum")
     if not os.path.exists(dst) or open(dst).read() != data:
         with open(dst, "w") as f:
             f.write(data)
+    return []
 
 
 def go_test(pkg, run, env, timeout=900, race=False, tags="verif", count=1, extra_args=(), logpath=None):
     """Build (from /repo's working tree) and run one harness test. Returns (rc, output)."""
-    prepare_harness()
-    cmd = [GO, "test", "-tags", tags, "-count", str(count), "-run", run, "-timeout", "%ds" % timeout]
+    modargs = prepare_harness()
+    cmd = [GO, "test"] + modargs + ["-tags", tags, "-count", str(count), "-run", run, "-timeout", "%ds" % timeout]
     if race:
         cmd.append("-race")
     cmd += list(extra_args) + [pkg]
